@@ -1,0 +1,21 @@
+//go:build verif
+
+package plenccore
+
+// VerifHooks are the seams used by the deterministic simulator in /verif. They
+// only exist when plenc is built with the "verif" build tag. With the tag off
+// every call site compiles to a call of an empty function.
+var VerifHooks struct {
+	// Yield is called at named points where another goroutine could run
+	// (registry access, codec construction, intern table insert, decode
+	// loops). The simulator uses it to decide who runs next and to count
+	// steps.
+	Yield func(site string)
+}
+
+// VerifYield reports that the calling goroutine has reached the named site.
+func VerifYield(site string) {
+	if h := VerifHooks.Yield; h != nil {
+		h(site)
+	}
+}
